@@ -244,8 +244,6 @@ func zzH_cfgNewParser() {
 		bc := p.BufferConfig()
 		wb := want.BufConfig()
 		verifAssert(bc == wb, "BufferConfig() of a new parser differs from the defaults-completed configuration [C20]")
-		// what Verify admits is what every method must cope with
-		verifAssert(1 <= bc.BufferSize && 0 <= bc.ShrinkSize && bc.ShrinkSize < bc.BufferSize && 1 <= bc.BlockSize && 0 <= bc.WindowSize, "accepted configuration with sizes out of range [C16]")
 		// a first use must not panic: empty Parse, tiny Write
 		var blk Block
 		n, perr := p.Parse(&blk, 0)
